@@ -244,7 +244,7 @@ def run_case(src, fmt, opts, tmp, with_queries, out, cfg, seen):
             fail('HARNESS', 'queries-changed-netlist', 'the read-only queries between the two composes changed the snapshot')
     try:
         with contextlib.redirect_stdout(io.StringIO()):
-            sdn.compose(n, f2, **opts)
+            n.compose(f2, **opts)            # the documented shortcut Netlist.compose: the same writer through the other public entry point
         t2 = open(f2).read()
     except EXC as e:
         fail('C16.repeatable', osite + ':second-raises', 'the second compose raised %s: %s' % (type(e).__name__, str(e)[:80]))
